@@ -1222,6 +1222,20 @@ def str_method(ex, st, fi, o, name, args, kw, line):
             yield st, And(ex_ok, sym.seq_startswith(s, t, start))
         else:
             yield st, sym.seq_startswith(s, t, 0)
+    elif name == 'lstrip' and len(args) == 1 and \
+            lift_str(args[0]).conc is not None:
+        # s.lstrip(<constant character set>): the suffix from the first
+        # character outside the set
+        cs = [ord(ch) for ch in lift_str(args[0]).conc]
+        off = fresh_int('lstrip')
+
+        def inset(c):
+            return Or(*[c == zint(x) for x in cs]) if cs else zbool(False)
+        st.assume(And(off >= 0, off <= zint(s.ln)))
+        st.assume(forall(0, off, lambda k: inset(s.at(k))))
+        st.assume(Implies(off < zint(s.ln), Not(inset(s.at(off)))))
+        yield st, SSeq(sym.lam(lambda k: s.at(off + k)), zint(s.ln) - off,
+                       'str')
     elif name == 'strip':
         if args:
             raise Unsupported('strip(chars) at %d' % line)
